@@ -49,6 +49,17 @@ except ImportError:
     from .no_omp_threads import get_number_of_threads
     from .no_omp_threads import set_number_of_threads
 
+# Verification hook (off by default, usable only with PYSPH_VERIF=1 in the
+# environment): a simulated OpenMP thread id for the neighbor cache.
+cdef int _verif_tid = -1
+
+def _verif_set_tid(int tid):
+    global _verif_tid
+    import os
+    if os.environ.get('PYSPH_VERIF') != '1':
+        raise RuntimeError('verification hook used without PYSPH_VERIF=1')
+    _verif_tid = tid
+
 cdef inline bint _compare_gids(id_gid_pair_t x, id_gid_pair_t y) noexcept nogil:
     return y.second > x.second
 
@@ -1253,6 +1264,8 @@ cdef class NeighborCache:
 
     cdef void _find_neighbors(self, long d_idx) noexcept nogil:
         cdef int thread_id = threadid()
+        if _verif_tid >= 0:
+            thread_id = _verif_tid
         self._pid_to_tid.data[d_idx] = thread_id
         self._start_stop.data[d_idx*2] = \
             (<UIntArray>self._neighbors[thread_id]).length
